@@ -396,6 +396,7 @@ func (r *Run) makeWitness(m *xexec.Machine, harness string, res *xexec.PathResul
 // ---------------------------------------------------------------- native replay
 
 type replayOut struct {
+	Race    bool     `json:"-"` // the race detector reported a data race while this record ran
 	File    string   `json:"file"`
 	Status  string   `json:"status"`
 	Reached []string `json:"reached"`
@@ -441,15 +442,25 @@ func (r *Run) NativeReplay(dir string, harnesses []string) (map[string]*replayOu
 		ovj, _ := json.Marshal(map[string]interface{}{"Replace": ov})
 		ovFile := filepath.Join(r.tmp, "overlay_"+strings.ReplaceAll(pkgDir, "/", "_")+".json")
 		os.WriteFile(ovFile, ovj, 0o644)
-		cmd := exec.Command("go", "test", "-mod=mod", "-tags", "verif", "-vet=off", "-count=1", "-overlay", ovFile, "-run", "^TestVerifReplay$", "-v", "-timeout", "20m", "./"+pkgDir)
+		args := []string{"test", "-mod=mod", "-tags", "verif", "-vet=off", "-count=1", "-overlay", ovFile, "-run", "^TestVerifReplay$", "-v", "-timeout", "20m"}
+		if r.Cfg.Prop == "C12" {
+			args = append(args, "-race") // C12 replays run the operations concurrently under the race detector
+		}
+		cmd := exec.Command("go", append(args, "./"+pkgDir)...)
 		cmd.Dir = r.Cfg.Repo
 		cmd.Env = append(os.Environ(), "VERIF_REPLAY_DIR="+dir, "GOFLAGS=-mod=mod", "GOPROXY=off", "GOSUMDB=off", "GOTOOLCHAIN=local")
 		b, err := cmd.CombinedOutput()
 		got := 0
+		race := false
 		for _, line := range strings.Split(string(b), "\n") {
+			if strings.Contains(line, "WARNING: DATA RACE") {
+				race = true
+			}
 			if i := strings.Index(line, "REPLAY {"); i >= 0 {
 				var ro replayOut
 				if json.Unmarshal([]byte(line[i+7:]), &ro) == nil {
+					ro.Race = race
+					race = false
 					out[ro.File] = &ro
 					got++
 				}
